@@ -21,10 +21,10 @@ from lib.swayexec import run_packages
 
 SEED0 = 14000
 # exhaustive pools and the number of pieces each is generated in (<= ~500 matrices per piece)
-EXH_POOLS = [("x_bool", 6), ("x_u8", 1), ("x_Ea", 4), ("x_bb", 4), ("x_bu", 6), ("x_eb", 2), ("x_Sa", 3),
+EXH_POOLS = [("x_bool", 6), ("x_u8", 1), ("x_u8s", 1), ("x_Ea", 4), ("x_bb", 4), ("x_bu", 6), ("x_eb", 2), ("x_Sa", 3),
              ("x_Eb", 1), ("x_Ec", 3), ("x_bbb", 2), ("x_Sb", 1)]
 RND_TYPES = ["u8", "Ea", "Eb", "Ec", "Sa", "Sb", "bb", "bu", "eb", "bbb", "uu", "es", "tbb"]
-NRAND = 250          # random matrices per chunk
+NRAND = 200          # random matrices per chunk
 CHUNKS = 3           # chunks per type
 FRONT_BATCH = 500    # matrices per vh-match package
 EXEC_BATCH = 100     # matrices per vh-exec package
@@ -93,7 +93,8 @@ def collect_decls(t, acc):
             "%s: %s" % (VARIANTS[i], r_type(x)) for i, x in enumerate(t["ts"])))
 
 
-def r_pat(p, t):
+def r_pat(p, t, sfx=False):
+    """sfx: u8 literals carry the type suffix (`0u8`)."""
     k = p["k"]
     if k == "wild":
         return "_"
@@ -105,16 +106,16 @@ def r_pat(p, t):
         n = 0
         for b in p["b"]:
             n = n * 256 + b
-        return str(n)
+        return str(n) + ("u8" if sfx else "")
     if k == "tuple":
-        return "(" + ", ".join(r_pat(x, tt) for x, tt in zip(p["ps"], t["ts"])) + ")"
+        return "(" + ", ".join(r_pat(x, tt, sfx) for x, tt in zip(p["ps"], t["ts"])) + ")"
     if k == "or":
-        return " | ".join(r_pat(x, t) for x in p["ps"])
+        return " | ".join(r_pat(x, t, sfx) for x in p["ps"])
     if k == "variant":
         pt = t["ts"][p["v"]]
         if pt["k"] == "unit":
             return "%s::%s" % (p["name"], VARIANTS[p["v"]])
-        return "%s::%s(%s)" % (p["name"], VARIANTS[p["v"]], r_pat(p["p"], pt))
+        return "%s::%s(%s)" % (p["name"], VARIANTS[p["v"]], r_pat(p["p"], pt, sfx))
     if k == "struct":
         parts = []
         for f in p["fs"]:
@@ -122,7 +123,7 @@ def r_pat(p, t):
             if sub["k"] == "bind" and sub["x"] == fn:
                 parts.append(fn)                       # shorthand `S { f }` binds f
             else:
-                parts.append("%s: %s" % (fn, r_pat(sub, t["ts"][f["i"] - 1])))
+                parts.append("%s: %s" % (fn, r_pat(sub, t["ts"][f["i"] - 1], sfx)))
         if p["rest"]:
             parts.append("..")
         return "%s { %s }" % (p["name"], ", ".join(parts))
@@ -150,8 +151,12 @@ def r_val(v, t):
     raise ValueError(k)
 
 
+def r_arm(rec, p):
+    return r_pat(p, rec["t"], rec.get("sfx", False))
+
+
 def r_matrix(rec):
-    return " ; ".join(r_pat(p, rec["t"]) for p in rec["M"])
+    return " ; ".join(r_arm(rec, p) for p in rec["M"])
 
 
 def render_front(recs):
@@ -165,7 +170,7 @@ def render_front(recs):
         lines.append("fn m_%d(s: %s) -> u64 { match s {" % (k, r_type(r["t"])))
         where[len(lines)] = (k, 0)
         for i, p in enumerate(r["M"]):
-            lines.append("%s => %d," % (r_pat(p, r["t"]), i + 1))
+            lines.append("%s => %d," % (r_arm(r, p), i + 1))
             where[len(lines)] = (k, i + 1)
         lines.append("} }")
         where[len(lines)] = (k, 0)
@@ -178,7 +183,7 @@ def render_exec(recs):
         collect_decls(r["t"], decls)
     lines = ["script;", "fn main() {}"] + [decls[n] for n in sorted(decls)]
     for k, r in enumerate(recs):
-        arms = " ".join("%s => %d," % (r_pat(p, r["t"]), i + 1) for i, p in enumerate(r["M"]))
+        arms = " ".join("%s => %d," % (r_arm(r, p), i + 1) for i, p in enumerate(r["M"]))
         lines.append("fn m_%d(s: %s) -> u64 { match s { %s } }" % (k, r_type(r["t"]), arms))
         calls = " ".join("log(m_%d(%s));" % (k, r_val(v, r["t"])) for v in r["vals"])
         lines.append("#[test] fn t_%d() { %s }" % (k, calls))
@@ -486,7 +491,7 @@ def trace_record(rec, c, ex):
             other.append(ex["fail"])
         else:
             run, res = True, ex["res"]
-    return {"id": rec["id"], "t": rec["t"], "M": rec["M"],
+    return {"id": rec["id"], "t": rec["t"], "M": rec["M"], "sfx": rec.get("sfx", False),
             "c": {"nonexh": c["nonexh"], "missing": c["missing"], "wsok": wsok, "ws": ws,
                   "flagged": c["flagged"], "other": other},
             "run": run, "vals": rec["vals"] if run else [], "res": res}
@@ -585,8 +590,8 @@ def run(ctx):
     units = all_units()
     if ctx.quick:
         # VERIF_SEED selects which pieces of the pool are run
-        units = slice_for_seed([u for u in units if u[0].startswith("x_")], ctx.seed, 2) + \
-                slice_for_seed([u for u in units if u[0].startswith("r_")], ctx.seed, 4)
+        units = slice_for_seed([u for u in units if u[0].startswith("x_")], ctx.seed, 1) + \
+                slice_for_seed([u for u in units if u[0].startswith("r_")], ctx.seed, 3)
     t0 = time.time()
     with ThreadPoolExecutor(max_workers=4) as ex:
         pools = list(ex.map(lambda u: gen_unit(ctx, u), units))
@@ -621,7 +626,7 @@ def run(ctx):
                 clause_count[x] = clause_count.get(x, 0) + 1
         ctx.report(finding_key(byid[rid], j), describe(byid[rid], tbyid[rid], j),
                    {"matrix": byid[rid], "record": tbyid[rid], "model": j, "source": "fn m(s: %s) -> u64 { match s { %s } }" % (
-                       r_type(byid[rid]["t"]), " ".join("%s => %d," % (r_pat(p, byid[rid]["t"]), i + 1)
+                       r_type(byid[rid]["t"]), " ".join("%s => %d," % (r_arm(byid[rid], p), i + 1)
                                                         for i, p in enumerate(byid[rid]["M"])))})
     # binding: corrupted verdicts of accepted records must all be rejected by the trace spec
     good = [t for t in trecs if t["id"] not in rej]
@@ -681,7 +686,7 @@ def replay(path):
     ctx = Ctx("C14replay", "quick", 0)
     tr, j = one_case(ctx, rec)
     print("source:   fn m(s: %s) -> u64 { match s { %s } }" % (
-        r_type(rec["t"]), " ".join("%s => %d," % (r_pat(p, rec["t"]), i + 1) for i, p in enumerate(rec["M"]))))
+        r_type(rec["t"]), " ".join("%s => %d," % (r_arm(rec, p), i + 1) for i, p in enumerate(rec["M"]))))
     print("compiler: non-exhaustive=%s missing=%s flagged-unreachable=%s other=%s" % (
         tr["c"]["nonexh"], tr["c"]["missing"], tr["c"]["flagged"], tr["c"]["other"]))
     if tr["run"]:
